@@ -621,8 +621,28 @@ def getslice(I, st, c, lo, hi, step, fr, k):
 
 
 def format_pieces(I, st, e, vals):
-    note(I, "f-string content is opaque")
-    return Sym(mk_str(z3.String(I.w.fresh("fstr"))))
+    """f-string: literal pieces and plain `{x}` of a str value are exact; `{x!r}`, format specs and non-str values
+    contribute an opaque piece"""
+    parts = []
+    vi = 0
+    exact = True
+    for node in e.values:
+        if isinstance(node, ast.Constant):
+            parts.append(z3.StringVal(node.value))
+            continue
+        v = vals[vi] if vi < len(vals) else None
+        vi += 1
+        if (isinstance(node, ast.FormattedValue) and node.conversion == -1 and node.format_spec is None and isinstance(v, Sym)):
+            t = v.t
+            opaque = z3.String(I.w.fresh("fpiece"))
+            parts.append(z3.If(is_str(t), get_s(t), opaque))
+        else:
+            parts.append(z3.String(I.w.fresh("fpiece")))
+            exact = False
+    note(I, "f-string: exact for literal text and {x} of str values; opaque for !r / format specs / non-str values")
+    if not parts:
+        return Sym(pystr(""))
+    return Sym(mk_str(z3.Concat(*parts) if len(parts) > 1 else parts[0]))
 
 
 # ---------------------------------------------------------------------------- loops
